@@ -65,3 +65,8 @@ def known_product_rounding(c, ri):
     label = "sum(b) + u" if "sum(b) + u" in msg else "sum(a)"
     return "unlabelled %s over %d cells rejects its own result: %s = 1 fails by rounding only (<= 64 ulps)" % (
         "Product2" if c.op == "prod2" else "Product3", cells, label)
+
+
+def qtol(ty, kappa=1, mult=4):
+    """tolerance for a predicate on a quantity whose computation divides by 1/kappa"""
+    return TOL[ty] * mult + (256 * num.EPS[ty] * kappa if kappa > 1 else 0)
